@@ -110,6 +110,8 @@ class WrapSpec:
     substs: List[Tuple[str, str]] = field(default_factory=list)
     lifts: List[Lift] = field(default_factory=list)
     foreach: List[Tuple[str, int]] = field(default_factory=list)          # (fragment, ordinal of the `for` inside it): rule R7 / R23
+    scans: List[Tuple[str, int]] = field(default_factory=list)            # (fragment, ordinal of the `.position(` inside it): rule R13
+    ensure_err: str = ""                                                   # rule R28: anyhow ensure!(c, ..) -> if !(c) { return Err(<this>) }
     frag_loops: Dict[str, Dict[int, Dict[str, List[str]]]] = field(default_factory=dict)   # fragment -> loop ordinal -> entries
 
     @property
@@ -248,6 +250,11 @@ def parse(path: str) -> UnitSpec:
             elif head == "foreach":
                 a, b = rest.split()
                 cur.foreach.append((a, int(b)))
+            elif head == "scan":
+                a, b = rest.split()
+                cur.scans.append((a, int(b)))
+            elif head == "ensure_macro":
+                cur.ensure_err = rest.strip()
             elif head == "loop":
                 # loop FRAG K (ghost|invariant|decreases|body_start|body_end|after) TEXT  -- as for fn blocks, inside one fragment
                 m = re.match(r"^(\w+)\s+(\d+)\s+(ghost|invariant|decreases|body_start|body_end|after)\s+(.*)$", rest, re.S)
